@@ -199,21 +199,16 @@ EXPORT errno_t _mbstowcs_s_chk(size_t *restrict retvalp, wchar_t *restrict dest,
         rc = EOK;
     } else {
         if (dest) {
-            size_t tmp = 0;
-            errno = 0;
-            if (*retvalp > RSIZE_MAX_WSTR) { /* else ESNOSPC */
-                tmp = mbstowcs(NULL, src, len);
-            }
-            /* with NULL either 0 or -1 is returned */
-            rc = (tmp == 0) ? ESNOSPC : errno;
+            /* (size_t)-1: libc met an illegal sequence, else it ran out of space */
+            rc = (*retvalp == (size_t)-1) ? EILSEQ : ESNOSPC;
             /* the entire src must have been copied, if not reset dest
              * to null the string. (only with SAFECLIB_STR_NULL_SLACK) */
             handle_werror(orig_dest, dmax,
-                          !tmp ? "mbstowcs_s: not enough space for src"
-                               : "mbstowcs_s: illegal sequence",
+                          rc == ESNOSPC ? "mbstowcs_s: not enough space for src"
+                                        : "mbstowcs_s: illegal sequence",
                           rc);
         } else {
-            rc = ((size_t)*retvalp == 0) ? EOK : errno;
+            rc = (*retvalp == (size_t)-1) ? EILSEQ : EOK;
         }
     }
 
